@@ -159,7 +159,7 @@ var c18Scripts = map[string][]string{
 	"persian":    {"می‌خواهم", "کتاب‌ها", "خانه", "ي", "ك", "هٔ", "‌"},
 	"cyrillic":   {"Привет", "мир", "бегущий", "книги", "ё", "я", "по-русски"},
 	"devanagari": {"किताबें", "लड़कियों", "हिन्दी", "क़", "ज़्यादा", "ँ", "क्ष", "ॐ"},
-	"cjk":        {"日本語", "東京都", "ｶﾀｶﾅ", "ＡＢＣ", "한국어", "中", "ｶﾞ", "、", "テスト", "こんにちは", "ﾞ"},
+	"cjk":        {"㌀", "㍿", "㌖日本", "日本語", "東京都", "ｶﾀｶﾅ", "ＡＢＣ", "한국어", "中", "ｶﾞ", "、", "テスト", "こんにちは", "ﾞ"},
 	"sorani":     {"پێشمەرگە", "كوردستان", "ھەڵە", "ك", "ي", "ە", "ڕۆژ"},
 	"misc":       {"😀", "👨\u200d👩\u200d👧", "\u200d", "\u00ad", "\ufeff", "\u0301", "e\u0301", "\ufffd", "\u00a0", "\x00", "\t"},
 }
@@ -486,6 +486,9 @@ func runC18(c *vk.Ctx) {
 		}
 	}
 	c.Sample(map[string]interface{}{"component": "analyzer:standard", "example_inputs": []string{string(c18GenInput(c.Rand("s1"), "latin")), string(c18GenInput(c.Rand("s2"), "cjk")), fmt.Sprintf("%x", c18GenInput(c.Rand("s3"), "truncated"))}})
+	if !c.Quick() {
+		runGoFuzz(c, "FuzzAnalyzers", 600000) // coverage-guided, all 24 analyzers behind one selector byte
+	}
 	c.Require("inputs_analyzer", 10000)
 	c.Require("inputs_filter", 10000)
 	c.Require("roundtrip_searches", 1000)
